@@ -26,7 +26,8 @@ HOSTILE_TYPES = ['char', 'unsigned char', 'short', 'unsigned short', 'int', 'uns
 
 
 # constants whose folded value depends on the FPU rounding state of the *compiler process*: they must not be affected by what was folded before them
-FP_TRAILER = 'float tr1 = 0.1; long double tr2 = 1.0L / 3; double tr3 = 0.7; float tr4 = 16777217.0; double tr5 = 1e22 / 3; long double tr6 = 0.1L * 3; float tr7 = 1.0f / 3.0f;'
+FP_TRAILER = 'float tr1 = 0.1; long double tr2 = 1.0L / 3; double tr3 = 0.7; float tr4 = 16777217.0; double tr5 = 1e22 / 3; long double tr6 = 0.1L * 3; float tr7 = 1.0f / 3.0f; ' \
+             'long double tr8 = 5.0L - 2.0L; double tr9 = 1.0L - 0.25; long double tr10 = 7.0L / 2.0L - 10; int tr11 = 2.5L > 1.5L; int tr12 = (1.0L - 3) < 0; long double tr13 = -(2.0L - 5);'
 
 
 def hostile_consts(rng):
